@@ -2,12 +2,12 @@ CONSTANTS
   SeriesFirst = FALSE
   CommitSeqBeforeWrite = FALSE
   FreezeBeforeMetaFlush = FALSE
-  ExpireOnConsumed = FALSE
+  ExpireOnConsumed = TRUE
   AtomicRound = FALSE
   Name = {"m1", "m2"}
-  MaxEntries = 2
+  MaxEntries = 3
   MaxCrash = 2
   MaxFlush = 3
 SPECIFICATION MCSpec
-INVARIANTS AckNotAhead NoLoss SeriesIndexed
+INVARIANTS NoLoss
 CHECK_DEADLOCK FALSE
